@@ -57,6 +57,8 @@ pub enum SeedSpec {
     /// muxer output (moov last) in which child `k` of the last track's sample table box is moved
     /// to the end: every table in turn is the very last box of the file
     MuxRotated { seed: u64, k: u8 },
+    /// movie header first; one sample of 1.1 to 1.6 MB between small ones
+    BigSample { seed: u64 },
 }
 
 impl SeedSpec {
@@ -81,6 +83,7 @@ impl SeedSpec {
             SeedSpec::HopChain { .. } => "hop_chain",
             SeedSpec::SiblingWalk { .. } => "sibling_walk",
             SeedSpec::MuxRotated { .. } => "mux_rotated",
+            SeedSpec::BigSample { .. } => "big_sample",
         }
     }
 }
@@ -1038,6 +1041,19 @@ pub fn build(spec: &SeedSpec) -> SeedImage {
         SeedSpec::MetaAll { seed } => SeedImage { bytes: meta_all_image(*seed), init_len: None },
         SeedSpec::HopChain { seed } => SeedImage { bytes: hop_chain_image(*seed), init_len: None },
         SeedSpec::SiblingWalk { seed } => SeedImage { bytes: sibling_walk_image(*seed), init_len: None },
+        SeedSpec::BigSample { seed } => {
+            let mut r = Rng::new(*seed ^ 0xB165);
+            let big = 1_100_000 + r.below(500_000) as u32;
+            let mut ops = vec![Op::AddTrack(TrackCfg { kind: Kind::Ttxt, track_type: Kind::Ttxt.natural_track_type(), timescale: 1000, language: "und".into(), width: 0, height: 0, sps: vec![], pps: vec![], aac_profile: 2, freq_index: 3, chan_conf: 2, bitrate: 0 })];
+            for (i, len) in [40u32, 900, big, 33, 70_000, 12].iter().enumerate() {
+                ops.push(Op::Write { track_id: 1, s: SampleW { payload: Payload::Stamp { len: *len, tag: i as u32 + 1 }, duration: 1000, offset: 0, sync: true, start_time: 0 } });
+            }
+            ops.push(Op::End);
+            let sc = MuxScenario { cfg: MovieCfg { major: *b"isom", minor: 512, compat: vec![], timescale: 1000 }, ops, start_pos: 0, io: IoKnobs::plain(), preexisting: 0, fault: None, fault_len: 0, fault_api: None };
+            let b = mux_bytes(&sc);
+            let b = relocate_moov_first(&b).unwrap_or(b);
+            SeedImage { bytes: b, init_len: None }
+        }
         SeedSpec::MuxRotated { seed, k } => {
             let b = mux_bytes(&small_scenario(*seed));
             let r = rotate_last_stbl(&b, *k as usize).unwrap_or(b);
